@@ -80,7 +80,7 @@ def filterLoop (c : Val → Res Val) : List Val → Res (List Val)
   | x :: xs => do
     let b ← c x
     let rest ← filterLoop c xs
-    pure (if isTrue b then x :: rest else rest)
+    pure (if isTrue b && !x.isNull then x :: rest else rest)
 
 def filterArray (c : Val → Res Val) (v : Val) : Res Val :=
   match v with
